@@ -3,6 +3,7 @@ package main
 import (
 	"fmt"
 	"go/token"
+	"go/types"
 
 	"golang.org/x/tools/go/ssa"
 )
@@ -59,6 +60,20 @@ type deferred struct {
 func (e *Enc) runDeferred(fr *Frame, df deferred, st *State) {
 	c := df.d.Call
 	callee := c.StaticCallee()
+	if callee != nil && callee.Parent() != nil && fr.parent == nil && fr.con != nil && fr.con.opts["models-recover"] == "true" {
+		// normal return: the deferred literal runs with no panic in flight
+		s2 := st.clone()
+		s2.reach = e.tb.And(st.reach, df.guard)
+		out := e.runDeferredLiteral(fr, callee, df, s2, 1)
+		skip := st.clone()
+		skip.reach = e.tb.And(st.reach, e.tb.Not(df.guard))
+		if e.tb.isTrue(df.guard) {
+			*st = out
+		} else {
+			*st = e.mergeStates(skip, out)
+		}
+		return
+	}
 	if callee == nil || !inRepo(callee) || callee.Parent() != nil {
 		e.note("deferred call not modelled")
 		e.modelled("deferred function literals / library calls are not modelled (recover idiom: panic => error)")
@@ -107,4 +122,137 @@ func (e *Enc) runDeferred(fr *Frame, df deferred, st *State) {
 	merged := e.mergeStates(notReg, s2)
 	merged.reach = st.reach
 	*st = merged
+}
+
+// runDeferredLiteral executes a deferred function literal in state st; mode says what recover() returns in it.
+func (e *Enc) runDeferredLiteral(fr *Frame, lit *ssa.Function, df deferred, st State, mode int) State {
+	var binds []Val
+	if mc, ok := df.d.Call.Value.(*ssa.MakeClosure); ok {
+		for _, b := range mc.Bindings {
+			binds = append(binds, e.val(fr, b))
+		}
+	}
+	savedCtx, savedStack, savedMode := e.ctx, e.stack, e.recoverMode
+	e.recoverMode = mode
+	_, out, sub := e.encodeFunc(lit, df.args, binds, st, fr, nil, nil)
+	e.ctx, e.stack, e.recoverMode = savedCtx, savedStack, savedMode
+	fr.panics = append(fr.panics, sub.panics...)
+	e.modelled("deferred function literals of a unit with `option models-recover` run at every exit: with recover() == nil at a return, with recover() != nil after a panic raised anywhere in the body (whole heap and all captured variables unknown at that point)")
+	return out
+}
+
+// recoverPath adds the exit of the function through its recover block: a panic was raised somewhere in the body (or in
+// something it calls) after the defer statements were reached, the deferred literals ran with recover() != nil and the
+// function returns the current values of its named results. The state at the panic is unknown: everything that is not
+// an unescaped local object is havocked; variables captured by the deferred literal are cells that escaped into it.
+func (e *Enc) recoverPath(fr *Frame, in State) {
+	tb := e.tb
+	st := in.clone()
+	e.havocAll(&st, "state at a recovered panic")
+	st.reach = tb.Fresh("panicked", "Bool")
+	// variables assigned exactly once, at entry before anything can panic (parameters spilled into cells because a
+	// literal captures them), still hold that value
+	for a, sto := range assignedOnceAtEntry(fr.fn) {
+		av, ok := fr.vals[a]
+		if !ok {
+			continue
+		}
+		elem := a.Type().Underlying().(*types.Pointer).Elem()
+		e.rootWrite(&st, &Addr{ref: av.t(), root: elem}, e.val(fr, sto.Val).t())
+	}
+	for i := len(fr.defers) - 1; i >= 0; i-- {
+		df := fr.defers[i]
+		st.reach = tb.And(st.reach, df.guard)
+		lit := df.d.Call.StaticCallee()
+		if lit == nil || lit.Parent() == nil {
+			e.note("deferred call not modelled on the panic path")
+			e.havocAll(&st, "deferred call on the panic path")
+			continue
+		}
+		st = e.runDeferredLiteral(fr, lit, df, st, 2)
+	}
+	b := fr.fn.Recover
+	fr.cur = b
+	for _, in := range b.Instrs {
+		e.instr(fr, b, in, &st)
+	}
+}
+
+// assignedOnceAtEntry: the variables (cells) of fn that are stored to exactly once - in the entry block before any call,
+// defer or other instruction that can panic - and whose address is otherwise only loaded from, in fn and in the
+// literals that capture it.
+func assignedOnceAtEntry(fn *ssa.Function) map[*ssa.Alloc]*ssa.Store {
+	out := map[*ssa.Alloc]*ssa.Store{}
+	if len(fn.Blocks) == 0 {
+		return out
+	}
+	early := map[ssa.Instruction]bool{}
+	for _, in := range fn.Blocks[0].Instrs {
+		switch in.(type) {
+		case *ssa.Alloc, *ssa.Store, *ssa.DebugRef, *ssa.MakeClosure:
+			early[in] = true
+			continue
+		}
+		break
+	}
+	var onlyLoaded func(v ssa.Value, depth int) bool
+	onlyLoaded = func(v ssa.Value, depth int) bool {
+		if v.Referrers() == nil || depth > 3 {
+			return false
+		}
+		for _, r := range *v.Referrers() {
+			switch u := r.(type) {
+			case *ssa.UnOp:
+				if u.Op != token.MUL {
+					return false
+				}
+			case *ssa.DebugRef:
+			case *ssa.MakeClosure:
+				f := u.Fn.(*ssa.Function)
+				for i, b := range u.Bindings {
+					if b == v && (i >= len(f.FreeVars) || !onlyLoaded(f.FreeVars[i], depth+1)) {
+						return false
+					}
+				}
+			default:
+				return false
+			}
+		}
+		return true
+	}
+	for _, in := range fn.Blocks[0].Instrs {
+		a, ok := in.(*ssa.Alloc)
+		if !ok || a.Referrers() == nil {
+			continue
+		}
+		var store *ssa.Store
+		good := true
+		for _, r := range *a.Referrers() {
+			switch u := r.(type) {
+			case *ssa.Store:
+				if u.Addr != a || u.Val == ssa.Value(a) || store != nil || !early[u] {
+					good = false
+				}
+				store = u
+			case *ssa.UnOp:
+				if u.Op != token.MUL {
+					good = false
+				}
+			case *ssa.DebugRef:
+			case *ssa.MakeClosure:
+				f := u.Fn.(*ssa.Function)
+				for i, b := range u.Bindings {
+					if b == ssa.Value(a) && (i >= len(f.FreeVars) || !onlyLoaded(f.FreeVars[i], 0)) {
+						good = false
+					}
+				}
+			default:
+				good = false
+			}
+		}
+		if good && store != nil {
+			out[a] = store
+		}
+	}
+	return out
 }
